@@ -35,7 +35,8 @@ def setup():
     # locks the library creates become scheduling points of the deterministic scheduler (pv/mon/sched.py); must happen
     # before the library is imported
     from pv.mon import sched
-    sched.patch_locks()
+    if not os.environ.get("PV_NO_LOCK_PATCH"):
+        sched.patch_locks()
     import oslo_policy
     where = os.path.realpath(os.path.dirname(oslo_policy.__file__))
     if not where.startswith(REPO + os.sep):
